@@ -278,6 +278,117 @@ func c20AddrTaint(c *Ctx, p *Prog, rule string) {
 		}
 	}
 
+	// an error folded into a new plain error keeps its chain only through %w: with %v / %s (or .Error()) the
+	// text of a net.Error — addresses included — becomes the text of an error that is no net.Error any more
+	ob4 := c.Obl(rule, "wrapped-errors#chain-kept", "wherever the module formats an error value into a new error it uses %w (so that the scrubber still finds the net.Error inside), never %v / %s or err.Error()")
+	nw := 0
+	for _, fn := range fns {
+		allInstrs(fn, func(in ssa.Instruction) {
+			call, ok := in.(*ssa.Call)
+			if !ok || ob4.Verdict == Violated {
+				return
+			}
+			id := p.CalleeID(call.Common())
+			if id != "fmt.Errorf" && id != "errors.New" {
+				return
+			}
+			isErrVal := func(v ssa.Value) bool {
+				for {
+					switch x := v.(type) {
+					case *ssa.MakeInterface:
+						v = x.X
+						continue
+					case *ssa.ChangeInterface:
+						v = x.X
+						continue
+					}
+					break
+				}
+				if _, isC := v.(*ssa.Const); isC {
+					return false
+				}
+				t := v.Type()
+				return isErrorType(t) || (types.Implements(t, errorType.Underlying().(*types.Interface)) && !isStringLike(t))
+			}
+			isErrText := func(v ssa.Value) bool {
+				for {
+					if mi, ok := v.(*ssa.MakeInterface); ok {
+						v = mi.X
+						continue
+					}
+					break
+				}
+				cl, ok := v.(*ssa.Call)
+				if !ok || !cl.Common().IsInvoke() || cl.Common().Method.Name() != "Error" {
+					return false
+				}
+				return isErrorType(cl.Common().Value.Type())
+			}
+			if id == "errors.New" {
+				if len(call.Common().Args) == 1 && isErrText(call.Common().Args[0]) {
+					ob4.At(p.InstrPos(call)).Violate("errors.New(err.Error()) in %s rebuilds an error from another error's text", p.FuncKey(fn))
+				}
+				return
+			}
+			format, okf := constString(call.Common().Args[0])
+			if !okf {
+				return
+			}
+			var verbs []byte
+			for i := 0; i < len(format); i++ {
+				if format[i] != '%' {
+					continue
+				}
+				i++
+				for i < len(format) && strings.IndexByte("+-# 0123456789.*[]", format[i]) >= 0 {
+					i++
+				}
+				if i < len(format) && format[i] != '%' {
+					verbs = append(verbs, format[i])
+				}
+			}
+			// varargs in slot order
+			last := call.Common().Args[len(call.Common().Args)-1]
+			sl, ok := last.(*ssa.Slice)
+			if !ok {
+				return
+			}
+			al, ok := sl.X.(*ssa.Alloc)
+			if !ok {
+				return
+			}
+			for _, r := range *al.Referrers() {
+				ia, ok := r.(*ssa.IndexAddr)
+				if !ok {
+					continue
+				}
+				k, okk := intConst(ia.Index)
+				if !okk || int(k) >= len(verbs) {
+					continue
+				}
+				for _, rr := range *ia.Referrers() {
+					st, ok := rr.(*ssa.Store)
+					if !ok || st.Addr != ssa.Value(ia) {
+						continue
+					}
+					if isErrVal(st.Val) {
+						nw++
+						if verbs[k] != 'w' {
+							ob4.At(p.InstrPos(call)).Violate("fmt.Errorf in %s formats an error value with %%%c: the result is a plain error whose text contains whatever addresses the inner error prints", p.FuncKey(fn), verbs[k])
+							return
+						}
+					} else if isErrText(st.Val) {
+						ob4.At(p.InstrPos(call)).Violate("fmt.Errorf in %s is handed err.Error(): the result is a plain error carrying the inner error's text", p.FuncKey(fn))
+						return
+					}
+				}
+			}
+		})
+	}
+	if ob4.Verdict != Violated {
+		ob4.HoldNT("%d error value(s) formatted into new errors, all with %%w", nw)
+	}
+
 	// errors of library parsers that are not net.Errors quote their input: handed address text, their error
 	// must not travel on (ElideError would print it verbatim)
 	ob3 := c.Obl(rule, "foreign-parse-errors#address-free", "no error returned by a library routine outside net, net/url, net/http and x/net/proxy that was handed address text is used beyond a nil test: such errors quote their input and are not net.Errors")
